@@ -117,7 +117,7 @@ def scalar(v):
 
 
 class Decision:
-    __slots__ = ("verdict", "clause", "tree", "state", "open", "origins")
+    __slots__ = ("verdict", "clause", "tree", "state", "open", "origins", "entries")
 
     def __init__(self):
         self.verdict = "A"
@@ -194,6 +194,7 @@ class Matcher:
         self.tt = M.type_table(S)
         self.clauses = clauses
         self.origins = set()
+        self.entries = []     # composite-handler entries (C16): (normalised handler name, value tree)
 
     # ----- events
     def key(self, c, key, value):
@@ -363,6 +364,8 @@ class Matcher:
                 else:
                     val = v
             attrs.append((an, val))
+            if it.handler:
+                self.entries.append((kt_basic_key(it.handler), val))
         tree = ("S", c.tname, c.name, tuple(attrs))
         dt = M.eff_datatype(self.S, c.tname)
         if dt == "null":
@@ -409,11 +412,14 @@ def decide(S, events, want_state=False):
         while len(stack) > 1:
             _close(m, stack, slots)
         d.tree = m.finish(stack[0])
+        if S.handler:
+            m.entries.append((kt_basic_key(S.handler), d.tree))
     except _Reject as r:
         d.verdict, d.clause = "R", r.clause
     except _Unspec as u:
         d.verdict, d.clause = "U", u.clause
     d.origins = m.origins
+    d.entries = m.entries
     return d
 
 
